@@ -12,7 +12,9 @@ isConstantSlice/identOf`, `filters.go:typeHasPointers`, `makeTypeIsIntUintFilter
 `makeTypeIsSignedFilter`, `makeTypeOfKindFilter`, `makeObjectIsFilter`, `makeObjectIsGlobalFilter`,
 `makeObjectIsVariadicParamFilter`, `nodeIs`, `makeGoVersionFilter`, `go_version.go`,
 `ir_loader.go:stringToBasicKind` and the OfKind case of `newFilter`, the node accessor
-(`subExpr` / `subNode`) and `$*xs` handling of every predicate constructor.
+(`subExpr` / `subNode` / `typeofNode`) and `$*xs` handling of every predicate constructor, and the
+dispatch itself (`evalPred` over a `Site`).  Behaviour-changing repairs of the Go code are flags
+(`fixed`, `ext`, `lists`, `stmt`, collected in `Variant`): cleared = the code as it stood.
 -/
 namespace PR
 open FIR (Tok)
@@ -156,6 +158,7 @@ structure Obj where
   parentIsPkgScope : Bool     -- `obj.Parent() == ctx.Pkg.Scope()`
   lastParamOfDecl : Bool      -- is the last parameter of the enclosing *FuncDecl*'s signature
   variadicParam : Bool        -- (spec side) is the `...T` parameter of some function, declared or literal
+  variadicOfLit : Bool        -- is the `...T` parameter of a function literal on the node path of the match (the match root or an ancestor)
 deriving DecidableEq, Repr, Inhabited
 
 /-- an `ast.Expr` as far as `isPure`, `isConstantSlice`, `identOf` look into it; `none` objects are
@@ -193,30 +196,37 @@ def isTypeExpr : Ex → Bool
   | _ => false
 
 mutual
-/-- `utils.go:isPure` (`none`: a nil expression, the `default` case) -/
-def isPure : Ex → Bool
-  | .star x => isPure x
-  | .binary x y => isPure x && isPure y
-  | .unary arrow x => !arrow && isPure x
+/-- `utils.go:isPure` (the `default` case answers `false`).  `ext = false`: the code as it stood;
+`ext = true`: after `fixes/c02-pure-whitelist.diff` (key-value elements, slice expressions, type
+assertions and type expressions are on the whitelist; a slice expression's present bounds are `idx`) -/
+def isPure (ext : Bool) : Ex → Bool
+  | .star x => isPure ext x
+  | .binary x y => isPure ext x && isPure ext y
+  | .unary arrow x => !arrow && isPure ext x
   | .basicLit _ | .ident _ | .funcLit => true
-  | .index x i => isPure x && isPure i
-  | .selector x _ => isPure x
-  | .paren x => isPure x
-  | .composite elts _ _ => isPureList elts
-  | .call fn args _ => isTypeExpr fn && isPureList args
-  | _ => false
-def isPureList : List Ex → Bool
+  | .index x i => isPure ext x && isPure ext i
+  | .selector x _ => isPure ext x
+  | .paren x => isPure ext x
+  | .composite elts _ _ => isPureList ext elts
+  | .call fn args _ => isTypeExpr fn && isPureList ext args
+  | .keyValue k v => ext && (isPure ext k && isPure ext v)
+  | .slice x idx => ext && (isPure ext x && isPureList ext idx)
+  | .typeAssert x => ext && isPure ext x
+  | .typeLit => ext
+  | .other => false
+def isPureList (ext : Bool) : List Ex → Bool
   | [] => true
-  | e :: es => if !isPure e then false else isPureList es
+  | e :: es => if !isPure ext e then false else isPureList ext es
 end
 
-/-- `utils.go:isConstantSlice` -/
-def isConstantSlice : Ex → Bool
+/-- `utils.go:isConstantSlice`.  `fixed = true`: after `fixes/c02-constslice-literal-type.diff` (a composite
+literal must be of slice or array type) -/
+def isConstantSlice (fixed : Bool) : Ex → Bool
   | .call _ args funIsByteSlice =>
     match args with
     | [.basicLit true] => funIsByteSlice
     | _ => false
-  | .composite _ eltsConst _ => eltsConst.all id
+  | .composite _ eltsConst isSlice => (!fixed || isSlice) && eltsConst.all id
   | _ => false
 
 /-- `utils.go:identOf`: `none` = nil; otherwise the object facts of the identifier found -/
@@ -260,15 +270,22 @@ inductive CurFunc
   | decl (variadic : Bool)
 deriving DecidableEq, Repr, Inhabited
 
-/-- `makeObjectIsVariadicParamFilter` -/
-def objectIsVariadicParam (cf : CurFunc) (e : Option Ex) : Bool :=
-  match cf with
-  | .none | .notFunc => false
-  | .decl false => false
-  | .decl true =>
+/-- `makeObjectIsVariadicParamFilter` on one expression.  `fixed = false`: only the enclosing function
+declaration is consulted; `fixed = true` (after `fixes/c02-variadic-funclit.diff`): also the function
+literals on the node path of the match -/
+def objectIsVariadicParam (fixed : Bool) (cf : CurFunc) (e : Option Ex) : Bool :=
+  if fixed then
     match objOf e with
-    | some o => o.lastParamOfDecl
-    | none => false             -- paramObj != nil
+    | none => false                                   -- `obj == nil`
+    | some o => (match cf with | .decl true => o.lastParamOfDecl | _ => false) || o.variadicOfLit
+  else
+    match cf with
+    | .none | .notFunc => false
+    | .decl false => false
+    | .decl true =>
+      match objOf e with
+      | some o => o.lastParamOfDecl
+      | none => false             -- paramObj != nil
 
 /-! ## nodes -/
 
@@ -357,17 +374,23 @@ inductive Rel
   | hasMethod | identicalTo | addressable | const
 deriving DecidableEq, Repr, Inhabited
 
+/-- the relation on `typeofNode(params.subNode(v))`.  `stmt = false`: only an `ast.Expr` has a type there;
+`stmt = true` (after `fixes/c02-typeof-exprstmt.diff`): `typeofNode` gives an `*ast.ExprStmt` the type of
+its expression, so that it coincides with `typeofNode(params.subExpr(v))` on every capture the record
+describes (expressions, statements, lists; `*ast.Field` captures are outside it) -/
+def Oracle.onNode (stmt : Bool) (o : Oracle) : Bool := if stmt then o.onSubExpr else o.onSubNode
+
 /-- `makeTypeIsFilter`, `makeTypeConvertibleToFilter`, `makeTypeAssignableToFilter`,
 `makeTypeImplementsFilter`, `makeComparableFilter`, `makeTypeHasMethodFilter`,
 `makeTypesIdenticalFilter`, `makeAddressableFilter`, `makeConstFilter`: which accessor, and whether
 an expression list is handled element-wise -/
-def relFilter (r : Rel) (o : Oracle) : Bool :=
+def relFilter (stmt : Bool) (r : Rel) (o : Oracle) : Bool :=
   match r with
   | .typeIs | .typeUnderlyingIs | .comparable =>
-    match o.onElems with | some l => allElems l | none => o.onSubNode
+    match o.onElems with | some l => allElems l | none => o.onNode stmt
   | .convertibleTo | .assignableTo | .implements | .addressable | .const =>
     match o.onElems with | some l => allElems l | none => o.onSubExpr
-  | .hasMethod | .identicalTo => o.onSubNode
+  | .hasMethod | .identicalTo => o.onNode stmt
 
 /-- a capture as the expression predicates see it -/
 inductive ExCap
@@ -380,12 +403,108 @@ def exprFilter (p : Option Ex → Bool) : ExCap → Bool
   | .one e => p e
   | .list es => es.all fun e => p (some e)
 
-def pureOpt : Option Ex → Bool | some e => isPure e | none => false
-def constSliceOpt : Option Ex → Bool | some e => isConstantSlice e | none => false
+def pureOpt (ext : Bool) : Option Ex → Bool | some e => isPure ext e | none => false
+def constSliceOpt (fixed : Bool) : Option Ex → Bool | some e => isConstantSlice fixed e | none => false
 
 /-- the predicates that read only `subExpr` (a list capture is not an expression: nil) -/
 def ExCap.subExpr : ExCap → Option Ex
   | .one e => e
   | .list _ => none
+
+/-- `exprListFilterApply` with a closure that may panic: stops at the first element that fails -/
+def allRes {α : Type} (f : α → Res Bool) : List α → Res Bool
+  | [] => .ok true
+  | a :: as =>
+    match f a with
+    | .ok true => allRes f as
+    | r => r
+
+/-- the expression predicates that had no list case (`Object.IsGlobal`, `Object.IsVariadicParam`):
+`lists = false`: the code as it stood, a list capture is read as a nil expression;
+`lists = true` (after `fixes/c02-list-captures.diff`): element-wise -/
+def exprFilterV (lists : Bool) (p : Option Ex → Res Bool) (c : ExCap) : Res Bool :=
+  match c with
+  | .one e => p e
+  | .list es => if lists then allRes (fun e => p (some e)) es else p none
+
+/-- a capture as the type predicates see it: `typeofNode(subExpr(v))`, or one type per element of `$*xs` -/
+inductive TyCap
+  | one (t : Ty)
+  | list (ts : List Ty)
+deriving Repr, Inhabited
+
+/-- `makeTypeOfKindFilter` / `makeTypeIsSignedFilter` / `makeTypeIsIntUintFilter` / `makeTypeHasPointersFilter`
+on a capture.  `lists = false`: a list capture is read as a nil expression (`types.Typ[types.Invalid]`);
+`lists = true` (after `fixes/c02-list-captures.diff`): element-wise -/
+def tyFilter (lists : Bool) (p : Ty → Bool) : TyCap → Bool
+  | .one t => p t
+  | .list ts => if lists then ts.all p else p invalidTy
+
+/-! ## variants, sites, and the dispatch of `newFilter` -/
+
+/-- which repairs are in: each flag is one diff (or, `base`, the three earlier ones) of `fixes/` -/
+structure Variant where
+  base : Bool      -- ofkind-untyped, isglobal-nil-object, alias-transparent-type-predicates
+  lists : Bool     -- c02-list-captures
+  stmt : Bool      -- c02-typeof-exprstmt
+  cslice : Bool    -- c02-constslice-literal-type
+  pure : Bool      -- c02-pure-whitelist
+  flit : Bool      -- c02-variadic-funclit
+deriving DecidableEq, Repr, Inhabited
+
+/-- the pinned tree -/
+def Variant.asis : Variant := ⟨false, false, false, false, false, false⟩
+/-- after the three earlier repairs -/
+def Variant.fixed : Variant := ⟨true, false, false, false, false, false⟩
+/-- after every repair -/
+def Variant.repaired : Variant := ⟨true, true, true, true, true, true⟩
+
+/-- everything the predicates read at one capture of one match -/
+structure Site where
+  ex : ExCap                  -- the expression view: `subExpr(v)` or the elements of `$*xs`
+  ty : TyCap                  -- the type view (`typeofNode` of the former)
+  node : Option NodeF         -- `subNode(v)`
+  parent : Option NodeF       -- `nodePath.Parent()`
+  cf : CurFunc
+  oracle : Option Oracle      -- answers of the go/types relation the predicate delegates to (`none`: not supplied)
+deriving Repr, Inhabited
+
+/-- `makeObjectIsFilter`'s switch (and the loader's check of the name) -/
+def objKindOfString (s : String) : Option ObjKind :=
+  if s == "Func" then some .func else if s == "Var" then some .var else if s == "Const" then some .const
+  else if s == "TypeName" then some .typeName else if s == "Label" then some .label
+  else if s == "PkgName" then some .pkgName else if s == "Builtin" then some .builtin
+  else if s == "Nil" then some .nil else none
+
+/-- a predicate with its (string) argument as the loader receives it -/
+inductive Pred
+  | ofKind (underlying : Bool) (kind : String)
+  | hasPointers | pure | constSlice
+  | objectIs (name : String)
+  | isGlobal | isVariadic
+  | nodeIs (known : Bool) (tag : String)       -- `known`: `nodetag.FromString(tag) != Unknown` (oracle)
+  | parentIs (known : Bool) (tag : String)
+  | rel (r : Rel)
+deriving DecidableEq, Repr, Inhabited
+
+/-- `ir_loader.go:newFilter` for these predicates, then the filter on a site.
+Outer `none`: the loader rejects the argument; inner `none`: the site carries no oracle answer. -/
+def evalPred (v : Variant) : Pred → Option (Site → Option (Res Bool))
+  | .ofKind u kind =>
+    match ofKind v.base u kind with
+    | none => none
+    | some f => some fun s => some (.ok (tyFilter v.lists f s.ty))
+  | .hasPointers => some fun s => some (.ok (tyFilter v.lists (typeHasPointers v.base) s.ty))
+  | .pure => some fun s => some (.ok (exprFilter (pureOpt v.pure) s.ex))
+  | .constSlice => some fun s => some (.ok (exprFilter (constSliceOpt v.cslice) s.ex))
+  | .objectIs name =>
+    match objKindOfString name with
+    | none => none                                   -- "" / "%s is not a valid go/types object name"
+    | some k => some fun s => some (.ok (exprFilter (objectIs k) s.ex))
+  | .isGlobal => some fun s => some (exprFilterV v.lists (objectIsGlobal v.base) s.ex)
+  | .isVariadic => some fun s => some (exprFilterV v.lists (fun e => .ok (objectIsVariadicParam v.flit s.cf e)) s.ex)
+  | .nodeIs known tag => if known then some fun s => some (.ok (nodeIs s.node tag)) else none
+  | .parentIs known tag => if known then some fun s => some (.ok (nodeIs s.parent tag)) else none
+  | .rel r => some fun s => s.oracle.map fun o => .ok (relFilter v.stmt r o)
 
 end PR
